@@ -64,6 +64,7 @@ type scenario struct {
 	hist    []string
 	viol    bool
 	epidemic bool
+	r1Only   bool // judge retention only (bursts: who is offered what is judged after the following retry tick)
 }
 
 func (sc *scenario) witness() interface{} {
@@ -346,6 +347,9 @@ func (sc *scenario) check(stepFrom int, redispatch bool) {
 			}
 		}
 		newlyAccepted := b.accepted >= stepFrom
+		if sc.r1Only {
+			continue
+		}
 		// R2 direct delivery: destination node connected => transmitted to it in the step in which that became true
 		if sc.up[b.dest] && (redispatch || newlyAccepted) {
 			sc.r.Count("R2.direct_checked", 1)
